@@ -1,0 +1,79 @@
+//! Verification hooks, compiled only with `--cfg melstf_verif`. Read-only observers of an
+//! [UnsealedState](crate::UnsealedState): nothing in here changes any state of the chain.
+use std::cell::{Cell, RefCell};
+
+use melstructs::{BlockHeight, NetID, StakeDoc, TxHash};
+use novasmt::ContentAddrStore;
+
+use crate::UnsealedState;
+
+/// A cheap snapshot of an unsealed state: SMT roots (loadable from the state's database) and counters.
+#[derive(Clone, Debug, PartialEq, Eq)]
+pub struct Snap {
+    pub label: &'static str,
+    pub network: NetID,
+    pub height: BlockHeight,
+    pub coins_root: [u8; 32],
+    pub pools_root: [u8; 32],
+    pub history_root: [u8; 32],
+    pub fee_pool: u128,
+    pub tips: u128,
+    pub fee_multiplier: u128,
+    pub dosc_speed: u128,
+    pub n_transactions: usize,
+    pub n_stakes: usize,
+}
+
+thread_local! {
+    static ARMED: Cell<bool> = Cell::new(false);
+    static PHASES: RefCell<Vec<Snap>> = RefCell::new(Vec::new());
+}
+
+/// Starts recording sealing phases on this thread.
+pub fn arm() {
+    ARMED.with(|a| a.set(true));
+    PHASES.with(|p| p.borrow_mut().clear());
+}
+
+/// Stops recording on this thread and returns what was recorded.
+pub fn disarm() -> Vec<Snap> {
+    ARMED.with(|a| a.set(false));
+    PHASES.with(|p| std::mem::take(&mut *p.borrow_mut()))
+}
+
+pub(crate) fn phase<C: ContentAddrStore>(label: &'static str, state: &UnsealedState<C>) {
+    if ARMED.with(|a| a.get()) {
+        let snap = state.verif_snap(label);
+        PHASES.with(|p| p.borrow_mut().push(snap));
+    }
+}
+
+impl<C: ContentAddrStore> UnsealedState<C> {
+    /// Snapshot of this state.
+    pub fn verif_snap(&self, label: &'static str) -> Snap {
+        Snap {
+            label,
+            network: self.network,
+            height: self.height,
+            coins_root: self.coins.inner().root_hash(),
+            pools_root: self.pools.mapping.root_hash(),
+            history_root: self.history.mapping.root_hash(),
+            fee_pool: self.fee_pool.0,
+            tips: self.tips.0,
+            fee_multiplier: self.fee_multiplier,
+            dosc_speed: self.dosc_speed,
+            n_transactions: self.transactions.iter().count(),
+            n_stakes: self.stakes.iter().count(),
+        }
+    }
+
+    /// The stakes currently registered.
+    pub fn verif_stakes(&self) -> Vec<(TxHash, StakeDoc)> {
+        self.stakes.iter().map(|(k, v)| (*k, *v)).collect()
+    }
+
+    /// Hashes of the transactions applied so far at this height.
+    pub fn verif_txhashes(&self) -> Vec<TxHash> {
+        self.transactions.iter_hashes().collect()
+    }
+}
